@@ -274,10 +274,13 @@ class ProgramParser:
             which is executed each time the tests are launched.
         """
 
-        # If the program can be parsed and is nonempty, flatten its AST.
+        # If the program can be parsed and is nonempty, flatten its AST. The flattening itself may fail
+        # on a valid program: an integer literal too long to be converted into a string (ValueError),
+        # or a tree too deep to be traversed recursively (RecursionError).
         try:
             tree = ast.parse(program.source)
-        except (SyntaxError, ValueError) as exception:
+            flat_ast = flatten_ast(tree) if tree.body else ""  # type: ignore
+        except (SyntaxError, ValueError, RecursionError) as exception:
             return [
                 Label(
                     LabelName(f"ast_construction:{type(exception).__name__}"),
@@ -292,7 +295,7 @@ class ProgramParser:
                     [Span(1, program.source.count("\n") + 1)],
                 )
             ]
-        self.flat_ast = flatten_ast(tree)
+        self.flat_ast = flat_ast
 
         # Search the flat AST for every feature which is specified by a regular expression.
         labels: LabelsSpans = defaultdict(list)
